@@ -762,8 +762,11 @@ theorem tie_body_pathvarVars (ok : Bool) :
 
 /-- **`handleError`**: returns for nil / ErrServerClosed, panics otherwise (`tie_handleErrorStmts`). -/
 theorem tie_body_handleError (err closed : Bool) :
-    handleErrorBody err closed = (if (!err || closed) then 0 else 1) ∧ handleErrorBodyReturns = ["", "<continues>"] :=
-  ⟨rfl, rfl⟩
+    handleErrorBody err closed = (if (!err || closed) then 0 else 1) ∧ handleErrorBodyReturns = ["", "<continues>"] ∧
+    (handleErrorBody err closed = 1 ↔ handleErrorPanics (!err) closed = true) := by
+  refine ⟨rfl, rfl, ?_⟩
+  unfold handleErrorBody handleErrorPanics
+  cases err <;> cases closed <;> decide
 
 /-- **`engine.bindRoute` / `appendAuthHandler`, decisions** (model `bindChain`, `tokenOk`): the native chain is built
 only when no `WithChain` chain is set; an Authorize handler is appended iff the group's jwt is enabled; the previous
